@@ -1,4 +1,5 @@
 import ColoVerif.Proofs.DetPlaceFrame
+import ColoVerif.Model.LegacyDetPlace
 /-!
 # C02 — detailed placement keeps the placement legal at every exposed state
 
@@ -118,6 +119,18 @@ theorem midpoint_in_site (b e w : Int) (h : b ≤ e - w) : b ≤ (b + e - w).tdi
       rw [Int.neg_neg] at this
       rw [this, Int.tdiv_eq_ediv_of_nonneg (by omega)]
     rw [e1]; omega
+
+/-- F2 on the pre-fix constructor (kept in Model/LegacyDetPlace.lean): it throws on a legal placement
+over a fixed non-obstruction cell; the repaired one does not (corpus/C02/w1.txt replays it on the code) -/
+theorem legacy_F2_witness :
+    isOk (fromIspdCircuitLegacy witnessF2) = false ∧ isOk (fromIspdCircuit witnessF2) = true := legacy_F2_throws
+
+/-- F18 on the pre-fix constructor: a turned two-row cell is optimised as a 4-wide single-row cell;
+the repaired one ignores it (corpus/C02/w2.txt) -/
+theorem legacy_F18_witness :
+    (match fromIspdCircuitLegacy witnessF18 with | .ok s => s.width 0 | .error _ => 0) = 4 ∧
+    (match fromIspdCircuit witnessF18 with | .ok s => s.width 0 | .error _ => 0) = -1 :=
+  legacy_F18_optimises_two_row_cell
 
 /-! non-vacuity: a concrete two-row state built by the model's constructor satisfies `Inv`, and a
 history of all four kinds of moves runs on it -/
